@@ -135,7 +135,8 @@ impl DataShape {
     }
 
     fn set_word(&mut self, word: &str) -> Result<()> {
-        match word.trim_start_matches(self.prefix) {
+        // Strip the prefix once: `trim_start_matches` would also accept `struct_struct_named`.
+        match word.strip_prefix(self.prefix).unwrap_or(word) {
             "newtype" => {
                 self.newtype = true;
                 Ok(())
